@@ -225,6 +225,31 @@ def evaluate(case) -> Outcome:
                     nt.append([s, phase])
 
     run_all("clean")
+
+    # configurations must not be mixed up: an entity that only the LAST configuration's tree holds is found there and only there
+    if len(configs) >= 2 and ents:
+        extra_t, extra_f = ents[0]
+        pm_last = model.paths[configs[-1]]
+        fk = [k for k in m.keys(extra_t) if m.specs[(extra_t, k)].free]
+        if fk and pm_last.has_path(extra_t):
+            only_f = dict(extra_f, **{fk[-1]: "onlyhere"})
+            tree.materialise(model, configs[-1], [(extra_t, only_f)])
+            s_only = m.render(extra_t, only_f)
+            for c in configs:
+                ok, got = call(lambda: [str(x) for x in FindInPaths(c).find(s_only)])
+                out.evaluations += 1
+                want = [s_only] if c == configs[-1] else []
+                if not ok:
+                    out.add(f"C11/config-mixup/raises/{exc_sig(got)}", f"FindInPaths({c!r}).find({s_only!r}) raised {got!r}")
+                elif got != want:
+                    out.add("C11/config-mixup/entity-of-one-tree-seen-through-another-configuration",
+                            f"{s_only!r} exists only in the {configs[-1]!r} tree; FindInPaths({c!r}).find -> {got}, expected {want}")
+            out.label("config-asymmetry-probe")
+            # back to identical trees for the junk phase
+            tree.reset(model)
+            for c in configs:
+                tree.materialise(model, c, ents)
+
     made = add_junk(model, ents, case["junk"], out)
     out.label(f"junk-items:{min(made, 9)}")
     for j in case["junk"]:
